@@ -155,7 +155,9 @@ def oracle_files(ck, rng):
             pos = rng.normal(size=(n, 3)) * 10 ** rng.integers(0, 5)
             feats = {"i": [int(x) for x in rng.integers(-5, 50, size=n)], "f": [float(x) for x in rng.normal(size=n)],
                      "s": [f"name{j}" for j in range(n)], "b": [bool(x) for x in rng.integers(0, 2, size=n)],
-                     "nul": [None if j % 2 else j for j in range(n)]}
+                     "nul": [None if j % 2 else j for j in range(n)],
+                     "fnan": [float("nan") if j % 3 == 1 else (None if j % 3 == 2 else 0.25 * j) for j in range(n)],     # NaN and null are different things
+                     "snan": [["nan", "NaN", "x", ""][j % 4] if j % 5 else "NULL" for j in range(n)]}                   # strings that only look like missing values
             m = Molecules(pos, rot, features=feats)
             for fmt in ("df", "parquet", "pq-to_file", "csv", "csv-to_file"):
                 prec = int(rng.integers(3, 12))          # the requested number of decimals, whatever it is
@@ -185,6 +187,11 @@ def oracle_files(ck, rng):
                     else:
                         if bf["i"].to_list() != feats["i"] or bf["s"].to_list() != feats["s"] or bf["b"].to_list() != feats["b"] or bf["nul"].to_list() != feats["nul"]:
                             fails.append("feature values")
+                        fn_b, fn_w = bf["fnan"].to_list(), feats["fnan"]
+                        same_nan = len(fn_b) == len(fn_w) and all((a is None and b is None) or (a is not None and b is not None and ((a != a and b != b) or abs(a - b) < 1e-3))
+                                                                  for a, b in zip(fn_b, fn_w))
+                        if not same_nan: fails.append(f"NaN/null feature: {fn_b} for {fn_w}")
+                        if exact and bf["snan"].to_list() != feats["snan"]: fails.append(f"string feature: {bf['snan'].to_list()} for {feats['snan']}")
                         if np.abs(np.array(bf["f"].to_list()) - np.array(feats["f"])).max() > (0 if exact else 0.5 * 10 ** (-prec) * 1.0001): fails.append("float feature")
                 except Exception as e:  # noqa
                     fails = [f"raised {type(e).__name__}: {e}"]
